@@ -1128,7 +1128,7 @@ type OutsParams struct {
 	Outs    []string // FILEW outputs returned by the top-level pipeline
 	OutName bool     // explicit output names on the pipeline's file outputs
 	Size    int
-	Mode    int  // 0 files, 1 nulls, 2 missing, 3 symlinks, 4 outside the pipestance
+	Mode    int  // 0 files, 1 nulls, 2 missing, 3 symlinks, 4 outside the pipestance, 5 relative links (from a sub-directory) to the first output's file
 	ProdMap bool // mapped producer: every output becomes an array
 	TopMap  bool // the top-level call itself is mapped
 	Wrap    bool // outputs pass through a sub-pipeline
@@ -1274,7 +1274,10 @@ func OutsFamily(thorough bool) []OutsParams {
 	var out []OutsParams
 	for _, set := range sets {
 		for _, size := range sizes {
-			for mode := 0; mode <= 4; mode++ {
+			for mode := 0; mode <= 5; mode++ {
+				if mode == 5 && len(set) < 2 && set[0] != "fs" && set[0] != "s" && set[0] != "ss" && set[0] != "ff" {
+					continue // needs at least two file leaves
+				}
 				for _, on := range []bool{false, true} {
 					for _, pm := range []bool{false, true} {
 						for _, tm := range []bool{false, true} {
